@@ -5,7 +5,8 @@ lists one hex per non-deleted operation in depot order, only existing vertex num
 that are `FACE_MAP` sides of its blocks, exactly the declared patch sides and projected sides,
 and the debug VTK reads back to the same points and cells.
 -/
-import CBV.Lemmas.C06Bnd
+import CBV.Lemmas.C06Geo
+import CBV.Lemmas.C06Num
 import Mathlib.Data.String.Basic
 
 set_option linter.unusedSectionVars false
@@ -16,6 +17,14 @@ namespace CBV.C06
 
 /-- **T_C06_bracket.** Bracket layer: every sequence of trees is recovered from its tokens. -/
 theorem T_C06_bracket (ts : List Tree) : parseTrees (flatList ts) = some ts := parseTrees_flatList ts
+
+/-- **T_C06_bracket_faithful.** Conversely, a token stream that parses *is* the flattening of its
+    parse: token streams with balanced brackets and sequences of trees are in bijection, so
+    nothing of the file is lost or invented by the bracket layer. -/
+theorem T_C06_bracket_faithful (toks : List Tok) (ts : List Tree) (h : parseTrees toks = some ts) :
+    flatList ts = toks := parseTrees_faithful toks ts h
+
+example : parseTrees [.word "a", .lp, .word "b", .semi, .rp] = some [.atom "a", .paren [.atom "b", .semi]] := rfl
 
 /-- **T_C06_schema.** Schema layer: every well-formed dictionary is recovered from its trees. -/
 theorem T_C06_schema (d : Dict) (h : WF d) : decode (encode d) = some d := decode_encode d h
@@ -181,11 +190,56 @@ theorem T_C06_faces (decl : Decl) :
   · intro x hx orient label h
     exact facesOf_has _ hx h
 
+/-- **T_C06_geometry.** If every label that a non-deleted operation is projected to (sides, faces,
+    edges, corners) is the name of a geometry declared by the user or brought by an entity of the
+    depot, then every label used by a `project` entry of the written dictionary is defined in its
+    geometry section.  (The premise is what the copied `Hemisphere` violated before the repair.) -/
+theorem T_C06_geometry (decl : Decl) (h : ∀ o ∈ declOps decl, ∀ l ∈ o.labels, l ∈ declGeomNames decl) :
+    geometryOk (assembleDecl decl) = true :=
+  geometryOk_dictOf decl _ (fun _ hx => (List.of_mem_zip hx).1) h
+
+/-- the geometry section contains exactly entries that were declared (name and properties) -/
+theorem T_C06_geometry_sound (decl : Decl) :
+    ∀ g ∈ (assembleDecl decl).geometry, g ∈ decl.geomBefore ++ decl.depot.flatMap (·.geometry) ++ decl.geomAfter :=
+  declGeometry_all (fun g => g ∈ decl.geomBefore ++ decl.depot.flatMap (·.geometry) ++ decl.geomAfter) decl
+    (fun g hg => List.mem_append_left _ (List.mem_append_left _ hg))
+    (fun g hg => List.mem_append_left _ (List.mem_append_right _ hg))
+    (fun g hg => List.mem_append_right _ hg)
+
+/-- an operation projected to a label that nothing defines (the copied sphere of the unrepaired
+    library: the operations keep the label of the original, the geometry is named after the copy) -/
+def orphanOp : OpDecl :=
+  { deleted := false,
+    corners := (List.range 8).map (fun i => ⟨⟨i, 0, 0⟩, [false, false, false], ["0", "0", "0"], []⟩),
+    patches := [none, none, none, none, none, none], sideProj := [none, some "sphere_old", none, none],
+    bottomProj := none, topProj := none, zone := "", counts := [], gkind := "simpleGrading", grading := [],
+    edges := [] }
+
+def orphanDecl : Decl :=
+  { sampleDecl with depot := [⟨[orphanOp], [⟨"sphere_new", []⟩]⟩] }
+
+example : geometryOk (assembleDecl orphanDecl) = false := by decide +kernel
+
+example : geometryOk (assembleDecl { orphanDecl with geomAfter := [⟨"sphere_old", []⟩] }) = true := by decide +kernel
+
 /-- **T_C06_merged.** `defaultPatch` and `mergePatchPairs` are exactly what was declared. -/
 theorem T_C06_merged (decl : Decl) :
     (assembleDecl decl).default = decl.default ∧
     (assembleDecl decl).merged = decl.mergedBefore ++ decl.mergedAfter ∧
     (assembleDecl decl).settings = decl.settings := ⟨rfl, rfl, rfl⟩
+
+/-! ### printed coordinates -/
+
+/-- **T_C06_round8.** The integer whose digits `fmt8` prints is a nearest integer to `|q|·10⁸`: the
+    printed coordinate differs from the point by at most half a unit of the 8th decimal. -/
+theorem T_C06_round8 (q : Rat) :
+    ((round8 q : Nat) : Rat) - (if q < 0 then -q else q) * ((pow10 8 : Nat) : Rat) ≤ 1 / 2 ∧
+    (if q < 0 then -q else q) * ((pow10 8 : Nat) : Rat) - ((round8 q : Nat) : Rat) ≤ 1 / 2 :=
+  roundHalfEven_spec _ (mul_nonneg (by split <;> linarith) (by exact_mod_cast Nat.zero_le _))
+
+/-- ties go to the even neighbour: `1/512 = 0.001953125` prints as `0.00195312` -/
+example : round8 (1 / 512) = 195312 ∧ round8 (3 / 512) = 585938 ∧ round8 (-1 / 3) = 33333333 := by
+  decide +kernel
 
 /-! ### the debug VTK -/
 
